@@ -102,6 +102,26 @@ def rule_sinks(rep: Report, repo: Repo) -> None:
         fn = repo.func(CLI, fname)
         cs = call_kwargs(fn, callee)
         if not cs:
+            # the sink call may have been extracted into a private helper of the module: follow one level, substituting the
+            # helper's parameters by the actual arguments
+            for hc in [c for c in calls(fn) if dotted(c.func).startswith('_') and repo.has_func(CLI, dotted(c.func))]:
+                h = repo.func(CLI, dotted(hc.func))
+                inner = call_kwargs(h, callee)
+                if not inner:
+                    continue
+                hp = [a.arg for a in h.args.args]
+                bind = {p_: norm(a) for p_, a in zip(hp, hc.args)}
+                bind.update({k.arg: norm(k.value) for k in hc.keywords if k.arg})
+                def subst(t: str) -> str:
+                    e = ast.parse(t, mode='eval').body
+                    class S(ast.NodeTransformer):
+                        def visit_Name(self, node: ast.Name) -> ast.AST:
+                            return ast.parse(bind[node.id], mode='eval').body if node.id in bind else node
+                    return norm(ast.fix_missing_locations(S().visit(e)))
+                ipos, ikw, ic = inner[0]
+                cs = [([subst(x) for x in ipos], {k: subst(v) for k, v in ikw.items()}, ic)]
+                break
+        if not cs:
             rep.fail('C20.SINKS', f'{dest} -> {callee}({param})', f'{fname}() no longer calls {callee}', f'{CLI}:{fn.lineno} {fname}')
             continue
         pos, kw, c = cs[0]
